@@ -174,9 +174,9 @@ fn run_queue_rerank(sh: u8) {
   }); }); });
   ::std::mem::forget(store);
 }
-//@h props=C04 tier=quick unwind=14 stubs=sort,boxslice timeout=1500 fieldsens=1024
+//@h props=C04 tier=quick unwind=14 stubs=sort,boxslice timeout=2400 fieldsens=1024
 fn bu_queue_rerank_between_operations_pairs() { run_queue_rerank(3); }
-//@h props=C04 tier=quick unwind=14 stubs=sort,boxslice timeout=1500 fieldsens=1024
+//@h props=C04:t tier=thorough unwind=14 stubs=sort,boxslice timeout=2400 fieldsens=1024
 fn bu_queue_rerank_between_operations_independent() { run_queue_rerank(4); }
 
 /// Scheduling by a changed resource: a reader and a writer of Cell(0) are each scheduled iff their own checker reports
